@@ -64,15 +64,21 @@ def step_matrix(step):
 def move_mesh_api(mesh, case, report=None):
     """apply the motion with mesh.Symmetry / Rotate / Translate; after each call compare the
     coordinates of EVERY element group (all dimensions) with the transformed coordinates"""
+    orig = {k: np.array(g.coord, dtype=float) for k, g in mesh.dict_groupElem.items()}
+    Rc, tc = np.eye(3), np.zeros(3)
     for step in api_steps(case):
-        before = {k: np.array(g.coord, dtype=float) for k, g in mesh.dict_groupElem.items()}
         getattr(mesh, step[0])(*step[1])
         Rm, tv = step_matrix(step)
+        Rc, tc = Rm @ Rc, Rm @ tc + tv            # cumulative motion of the ORIGINAL coordinates
         for k, g in mesh.dict_groupElem.items():
-            exp = before[k] @ Rm.T + tv
+            exp = orig[k] @ Rc.T + tc
             e = float(np.abs(np.asarray(g.coord, dtype=float) - exp).max() / max(1.0, np.abs(exp).max()))
-            if report is not None and e > report.get("err", 0.0):
+            if report is not None and e > 1e-12 and "step" not in report:
                 report.update({"err": e, "group": str(k), "dim": int(g.dim), "step": step[0]})
+            elif report is not None and e > report.get("err", 0.0) and report.get("step") == step[0]:
+                report.update({"err": e, "group": str(k), "dim": int(g.dim)})
+            elif report is not None and "step" not in report:
+                report["err"] = max(report.get("err", 0.0), e)
 
 
 def rel(a, b):
